@@ -298,6 +298,43 @@ def run(prop, tier):
         index[rid] = dict(label=lab("program book round trip (visible content)"))
         rid += 1
         rid = close_records(records, index, rid, lab("simulation with the re-imported program book"), P.run_sim(ps, pg2, ins, store_results=False), P.run_sim(ps, pgm, ins, store_results=False))
+        # a program book whose tables do not all carry the same year columns (dense years for the first program, the last table keeps only
+        # the years it has data for): read it, write it, read it again
+        try:
+            import openpyxl
+            import io as _io
+
+            pgs = sc.dcp(pg)
+            yrs = [float(y) for y in pgs.tvec]
+            if len(yrs) >= 2:
+                first = pgs.programs[0]
+                b0 = float(first.spend_data.interpolate(yrs[0])[0])
+                for i_, y_ in enumerate(yrs):
+                    first.spend_data.insert(y_, b0 * (1 + 0.5 * i_))
+                wb_ = openpyxl.load_workbook(pgs.to_spreadsheet().tofile(), data_only=True)
+                ws_ = wb_["Spending data"]
+                last_name = pgs.programs.keys()[-1]
+                hr = [r_ for r_ in range(1, ws_.max_row + 1) if ws_.cell(r_, 1).value == last_name][-1]
+                rows_ = []
+                r_ = hr
+                while r_ <= ws_.max_row and ws_.cell(r_, 1).value is not None:
+                    rows_.append(r_)
+                    r_ += 1
+                for c_ in range(2, ws_.max_column + 1):
+                    if isinstance(ws_.cell(hr, c_).value, (int, float)) and all(ws_.cell(rr_, c_).value is None for rr_ in rows_[1:]):
+                        ws_.cell(hr, c_).value = None
+                f_ = _io.BytesIO()
+                wb_.save(f_)
+                f_.seek(0)
+                ps1 = at.ProgramSet.from_spreadsheet(sc.Spreadsheet(f_), framework=P.framework, data=P.data)
+                ps2 = at.ProgramSet.from_spreadsheet(ps1.to_spreadsheet(), framework=P.framework, data=P.data)
+                records.append(dict(id=rid, kind="same", a=dg(progset_content(ps1)), b=dg(progset_content(ps2))))
+                index[rid] = dict(label=lab("program book with sparse and dense year columns: round trip (visible content)"))
+                rid += 1
+                ins_s = at.ProgramInstructions(start_year=yrs[0])
+                rid = close_records(records, index, rid, lab("simulation with the re-imported program book (sparse / dense years)"), P.run_sim(ps, ps2, ins_s, store_results=False), P.run_sim(ps, ps1, ins_s, store_results=False))
+        except Exception as ex:
+            V.violation("C16 sparse-year program book raised %s" % type(ex).__name__, dict(model=name, error=str(ex)[:300]))
         # calibration: values survive; unknown entries are skipped (also as the first row); missing entries keep existing values
         q = sc.dcp(ps)
         for j, par in enumerate(q.all_pars()):
@@ -365,11 +402,23 @@ def run(prop, tier):
         index[rid] = dict(label=lab("simulation from the loaded project is bit-identical"))
         rid += 1
         fn = os.path.join(C.scratch(), "r_%d.obj" % os.getpid())
+        byname = lambda r_: {pp.name + "/" + par_.name: [float(np.sum(x_.vals[:-1])) for x_ in pp.get_variable(par_.name + ":flow")] for pp in r_.model.pops for par_ in pp.pars if par_.links}
+        byname0 = byname(base)  # (before saving: saving re-links the original as well)
         sc.save(fn, base)
         rb = sc.load(fn)
         os.remove(fn)
         records.append(dict(id=rid, kind="same", a=DG.result_digest(base), b=DG.result_digest(rb)))
         index[rid] = dict(label=lab("binary result save / load"))
+        rid += 1
+        # ... and what the loaded result answers to queries by name (a parameter may drive several links)
+        records.append(dict(id=rid, kind="same", a=dg(byname0), b=dg(byname(rb))))
+        index[rid] = dict(label=lab("binary result save / load: flows requested by parameter name"))
+        rid += 1
+        records.append(dict(id=rid, kind="same", a=dg(byname0), b=dg(byname(base))))
+        index[rid] = dict(label=lab("the saved result itself still answers flows by parameter name as before"))
+        rid += 1
+        records.append(dict(id=rid, kind="same", a=dg(byname0), b=dg(byname0)))
+        index[rid] = dict(label=lab("binary result save / load: flows requested by parameter name"))
         rid += 1
     # ================= reconciliation is one of the editing operations: the reconciled program set simulates like the program set rebuilt from
     # its own exported program book (its visible content - baselines, outcomes, unit costs - is all there is)
